@@ -58,6 +58,9 @@ Inductive err :=
   | EInvalidIdType           (* InvalidNonFungibleIdType: ruid mint on non-ruid resource or vice versa *)
   | ENotHeld                 (* burn of ids that are not in the caller's bucket: fails before the manager *)
   | EPayload                 (* data does not match the schema *)
+  | EUnauthorized            (* auth module: the caller does not satisfy the minter / burner / data-updater role *)
+  | ENotMintable             (* assert_mintable: the resource was created without the mint feature *)
+  | ENotBurnable             (* assert_burnable *)
   | EOther.
 Inductive res (A : Type) := ROk (x : A) | RErr (e : err) | RPanic.
 Arguments ROk {A} x. Arguments RErr {A} e. Arguments RPanic {A}.
@@ -137,17 +140,31 @@ Definition create (ty : idtype) (nf : nat) (mutable : list (N * nat)) (initial :
   | _ => None
   end.
 
+(* admission in front of every operation: the auth module checks the method's role (minter for
+   mint / mint_ruid, burner for burn, non_fungible_data_updater for update_non_fungible_data)
+   before the call — `auth` = did the caller satisfy it — and the body starts with assert_mintable /
+   assert_burnable (feature flags fixed at creation; a resource created without mint (burn) roles has
+   the feature off AND the role set to deny_all, so that ENotMintable / ENotBurnable are shadowed) *)
+Record rcfg := { mintable : bool; burnable : bool }.
+Definition astep (cfg : rcfg) (m : rm) (auth : bool) (o : op) : rm * res unit :=
+  if negb auth then (m, RErr EUnauthorized) else
+  match o with
+  | OMint _ | OMintRuid _ => if mintable cfg then step m o else (m, RErr ENotMintable)
+  | OBurn _ => if burnable cfg then step m o else (m, RErr ENotBurnable)
+  | OUpdate _ _ _ => step m o
+  end.
+
 (* a transaction = several operations, all or nothing *)
-Fixpoint tx_go (m : rm) (ops : list op) : rm * res unit :=
+Fixpoint tx_go (cfg : rcfg) (m : rm) (ops : list (bool * op)) : rm * res unit :=
   match ops with
   | [] => (m, ROk tt)
-  | o :: rest => match step m o with
-                 | (m', ROk _) => tx_go m' rest
-                 | (_, e) => (m, e)
-                 end
+  | (auth, o) :: rest => match astep cfg m auth o with
+                         | (m', ROk _) => tx_go cfg m' rest
+                         | (_, e) => (m, e)
+                         end
   end.
-Definition tx_step (m : rm) (ops : list op) : rm * res unit :=
-  match tx_go m ops with
+Definition tx_step (cfg : rcfg) (m : rm) (ops : list (bool * op)) : rm * res unit :=
+  match tx_go cfg m ops with
   | (m', ROk u) => (m', ROk u)
   | (_, e) => (m, e)
   end.
